@@ -94,8 +94,8 @@ func runC01(c *ctx) error {
 				extras++
 			}
 		}
-		with := &world.History{Level: 0, Pub: pub}
-		without := &world.History{Level: 0, Pub: legit}
+		with := &world.History{Level: 1, Pub: pub}
+		without := &world.History{Level: 1, Pub: legit}
 		ocW := with.Run(env.pc, env.tb, oidOf)
 		ocO := without.Run(env.pc, env.tb, oidOf)
 		countLetters(r, evs)
@@ -172,7 +172,7 @@ func runC02(c *ctx) error {
 		var ref *world.Outcome
 		var refH *world.History
 		tryPerm := func(pp, up []world.Placed) {
-			h := &world.History{Level: 0, Pub: pp, Unpub: up}
+			h := &world.History{Level: 1, Pub: pp, Unpub: up}
 			oc := h.Run(env.pc, env.tb, oidOf)
 			perms++
 			desc := descHistory(h, evs, oc)
@@ -272,8 +272,8 @@ func runC04(c *ctx) error {
 		}
 		full := append(append([]world.Event{}, evs...), ext...)
 		pub, _ := d.Place(full, o)
-		hBase := &world.History{Level: 0, Pub: pub[:base]}
-		hFull := &world.History{Level: 0, Pub: pub}
+		hBase := &world.History{Level: 1, Pub: pub[:base]}
+		hFull := &world.History{Level: 1, Pub: pub}
 		ocB := hBase.Run(env.pc, env.tb, oidOf)
 		ocF := hFull.Run(env.pc, env.tb, oidOf)
 		countLetters(r, full)
@@ -372,7 +372,7 @@ func runC06(c *ctx) error {
 		sort.Slice(ts, func(a, b int) bool { return ts[a] < ts[b] })
 		for _, t := range ts {
 			tt := t
-			hv := &world.History{Level: 0, Pub: pubS, Unpub: unpub, VersionTime: &tt}
+			hv := &world.History{Level: 1, Pub: pubS, Unpub: unpub, VersionTime: &tt}
 			// the same instant written with a zone offset (every third cut)
 			if cuts%3 == 1 {
 				hv.VersionTimeOffset = []int{7200, -19800, 3600, -3600, 45900}[cuts%5]
@@ -391,7 +391,7 @@ func runC06(c *ctx) error {
 					tu = append(tu, p)
 				}
 			}
-			ht := &world.History{Level: 0, Pub: tp, Unpub: tu}
+			ht := &world.History{Level: 1, Pub: tp, Unpub: tu}
 			ocT := ht.Run(env.pc, env.tb, oidOf)
 			cuts++
 			desc := descHistory(hv, evs, ocV)
@@ -421,7 +421,7 @@ func runC06(c *ctx) error {
 				vid = sorted[k].CRef
 				tp = sorted[:k+1]
 			}
-			hv := &world.History{Level: 0, Pub: pubS, Unpub: unpub, VersionID: vid}
+			hv := &world.History{Level: 1, Pub: pubS, Unpub: unpub, VersionID: vid}
 			restCheck(r, world.CRefString(vid), "")
 			if k == 0 {
 				restCheck(r, world.CRefString(vid), "2020-01-01T00:00:00Z")
@@ -438,7 +438,7 @@ func runC06(c *ctx) error {
 				}
 				continue
 			}
-			ht := &world.History{Level: 0, Pub: world.Shuffle(env.rng, tp)}
+			ht := &world.History{Level: 1, Pub: world.Shuffle(env.rng, tp)}
 			ocT := ht.Run(env.pc, env.tb, oidOf)
 			if stateKey(ocV) != stateKey(ocT) {
 				r.Direct = append(r.Direct, out.Direct{Oracle: "version_id_is_prefix", What: fmt.Sprintf("V=%d filtered: %s ; truncated: %s", vid, stateKey(ocV), stateKey(ocT)), Case: desc})
@@ -460,7 +460,7 @@ func runC06(c *ctx) error {
 				if known {
 					continue
 				}
-				hv := &world.History{Level: 0, Pub: pubS, Unpub: unpub, VersionID: 7777, VersionIDRaw: raw}
+				hv := &world.History{Level: 1, Pub: pubS, Unpub: unpub, VersionID: 7777, VersionIDRaw: raw}
 				ocV := hv.Run(env.pc, env.tb, oidOf)
 				cuts++
 				desc := descHistory(hv, evs, ocV)
@@ -487,8 +487,8 @@ func runC06(c *ctx) error {
 				vid := sorted[k].CRef
 				tt := int64(sorted[k].Time)
 				for variant := 0; variant < 2; variant++ {
-					hw := &world.History{Level: 0, Pub: pubS, Unpub: unpub}
-					ha := &world.History{Level: 0, Pub: store, Unpub: unpub, Additional: add}
+					hw := &world.History{Level: 1, Pub: pubS, Unpub: unpub}
+					ha := &world.History{Level: 1, Pub: store, Unpub: unpub, Additional: add}
 					if variant == 0 {
 						hw.VersionID, ha.VersionID = vid, vid
 					} else {
@@ -527,7 +527,7 @@ func runC12(c *ctx) error {
 		evs, note := world.CycleHistory(d, env.rng)
 		o := world.GenOpts{TimeDelta: env.dl}
 		pub, _ := d.Place(evs, o)
-		h := &world.History{Level: 0, Pub: world.Shuffle(env.rng, pub), Note: note}
+		h := &world.History{Level: 1, Pub: world.Shuffle(env.rng, pub), Note: note}
 		oc := world.RunWithTimeout(h, env.pc, env.tb, oidOf)
 		countLetters(r, evs)
 		r.Count("cycle_shape", note)
